@@ -540,6 +540,57 @@ func runIndex(sc vh.Scenario, dir string, rec *vh.Rec) {
 		d.sk.Stop()
 	}
 	ev["served"], ev["servedvalid"] = served, servedValid
+	// C11: delete erases exactly that space's files and nothing else.  Every indexed space is deleted in turn (mining
+	// ones are stopped first); afterwards no file named after a deleted space may be left (whatever progress the
+	// space had, e.g. a plotted table with its table A still there as after a crash just before the final unlink),
+	// and every other file must still be there, unaltered.
+	d.sk.ActOnWorkSpaces(engine.SFMining, engine.Stop)
+	preDel := listing(d.dirs)
+	deleted, refused := []string{}, []string{}
+	// the files of a space are those in the directory it was indexed from (a second pair of the same name in another
+	// directory is not the space's: it must stay)
+	dirOfSpace := map[string]string{}
+	if dl, res, err := d.sk.WorkSpaceInfosByDirs(); err == nil {
+		for i, dir := range dl {
+			for _, in := range res[i] {
+				dirOfSpace[in.SpaceID] = d.names[dir]
+			}
+		}
+	}
+	for _, in := range infos {
+		pfx := dirOfSpace[in.SpaceID] + "/" + strings.ToLower(fmt.Sprintf("%d_%x_%d", in.Ordinal, in.PublicKey.SerializeCompressed(), in.BitLength))
+		if err := d.sk.ActOnWorkSpace(in.SpaceID, engine.Delete); err != nil {
+			refused = append(refused, nameOf(in.PublicKey))
+			continue
+		}
+		deleted = append(deleted, pfx)
+	}
+	postDel := listing(d.dirs)
+	undeleted, collateral := []string{}, []string{}
+	mine := func(n string) bool {
+		base := strings.ToLower(n)
+		for _, pfx := range deleted {
+			if strings.HasPrefix(base, pfx+".") || strings.HasPrefix(base, pfx+"_a.") {
+				return true
+			}
+		}
+		return false
+	}
+	for n := range postDel {
+		if mine(n) {
+			undeleted = append(undeleted, n[:strings.Index(n, "/")+1]+"..."+n[len(n)-16:])
+		}
+	}
+	for n, st := range preDel {
+		if !mine(n) {
+			if cur, ok := postDel[n]; !ok || cur != st {
+				collateral = append(collateral, n)
+			}
+		}
+	}
+	sort.Strings(undeleted)
+	sort.Strings(collateral)
+	ev["undeleted"], ev["collateral"], ev["refused"] = undeleted, collateral, refused
 	rec.Emit(ev)
 }
 
